@@ -363,7 +363,12 @@ if cmdline.as_server is not None:
 # generate reports
 # - ensure UTF-8 encoding for output (not standard with Windows Python)
 #
-out_utf8 = open(sys.stdout.fileno(), mode='w', encoding='utf-8')
+# - a proofreader message may contain text that cannot be encoded,
+#   for instance a lone surrogate: do not fail then
+#
+sys.stdout.reconfigure(errors='replace')
+out_utf8 = open(sys.stdout.fileno(), mode='w', encoding='utf-8',
+                                                errors='replace')
 
 if cmdline.output == 'plain' or cmdline.list_unknown:
     from yalafi.shell import gentext
